@@ -745,6 +745,13 @@ Notes:
         if init: self._termination(self) #XXX: at generation 0 or always?
         return #XXX: call Terminated ?
 
+    def SetGenerationMonitor(self, monitor, new=False):
+        if self._energy_history is not None: # log the pending iteration first
+            self.energy_history = None # resync with 'best' energy
+            self._stepmon(self.bestSolution, self.bestEnergy, self.id)
+        return super(PowellDirectionalSolver, self).SetGenerationMonitor(monitor, new)
+    SetGenerationMonitor.__doc__ = AbstractSolver.SetGenerationMonitor.__doc__
+
     def Finalize(self):
         """cleanup upon exiting the main optimization loop"""
         if self._energy_history is not None and self._live:
